@@ -123,6 +123,9 @@ type Layout struct {
 	// spaces.
 	Mode int    `json:"mode"`
 	Salt uint64 `json:"salt,omitempty"`
+	// Lead: white space (blanks, line breaks) before the first token; Trail: after the last.
+	Lead  string `json:"lead,omitempty"`
+	Trail string `json:"trail,omitempty"`
 }
 
 type printer struct {
@@ -147,7 +150,9 @@ type Printed struct {
 
 func Print(root *N, lay Layout) *Printed {
 	p := &printer{line: 1, lay: lay}
+	p.raw(lay.Lead)
 	p.node(root)
+	p.raw(lay.Trail)
 	src := p.sb.String()
 	return &Printed{Src: src, Nodes: p.nodes, Lines: strings.Split(src, "\n")}
 }
@@ -252,7 +257,19 @@ func (p *printer) node(n *N) {
 			p.tk(strconv.Itoa(-n.I))
 			p.tk(")")
 		} else {
-			n.line, n.col = p.token(strconv.Itoa(n.I))
+			sp := strconv.Itoa(n.I)
+			if p.lay.Mode == 2 {
+				// other spellings of the same decimal number: leading zeros, digit separators
+				switch h := mix(p.lay.Salt, uint64(p.nextID)*31+7) % 11; {
+				case h == 0:
+					sp = "0" + sp
+				case h == 1 && len(sp) >= 2:
+					sp = sp[:1] + "_" + sp[1:]
+				case h == 2:
+					sp = "00" + sp
+				}
+			}
+			n.line, n.col = p.token(sp)
 		}
 	case "bool":
 		if n.B {
